@@ -2715,11 +2715,13 @@ impl LineBuf {
 				let pos = if count == 1 {
 					self.end_of_line()
 				} else {
-					// The end of the line 'count - 1' lines below: if there is no such line, the motion fails
-					let target_line = self.cursor_line_number() + count - 1;
-					if target_line >= self.line_count() {
+					// The end of the line 'count - 1' lines below, or of the last line; on the last line the motion fails
+					let last_line = self.line_count() - 1;
+					let cursor_line = self.cursor_line_number();
+					if cursor_line >= last_line {
 						return MotionKind::Null
 					}
+					let target_line = (cursor_line + count - 1).min(last_line);
 					let Some((_,end)) = self.line_bounds(target_line) else {
 						return MotionKind::Null
 					};
